@@ -62,8 +62,10 @@ Fixpoint has_null_secret (fuel : nat) (e : expr) : bool :=
 Definition known (c : case) : bool :=
   existsb (fun kv => has_fromjson wire_fuel (snd kv)) (ed_values (c_def c))
   && existsb (fun kv => has_null_secret wire_fuel (snd kv)) (ed_values (c_def c)).
-Definition spec_fail_new (c : case) : bool := spec_fail c && negb (known c).
-Definition spec_fail_known (c : case) : bool := spec_fail c && known c.
+(* a failure counts as the RECORDED finding only when the model - which reproduces that finding - predicts exactly what the
+   implementation did on this case; any further deviation makes it a new failure with this input as the replay *)
+Definition spec_fail_new (c : case) : bool := spec_fail c && negb (known c && negb (mismatch c)).
+Definition spec_fail_known (c : case) : bool := spec_fail c && known c && negb (mismatch c).
 Definition nontrivial (c : case) : bool := c_compared c.
 
 Definition decode (x : sexp) : option case :=
